@@ -10,6 +10,7 @@ import (
 	"testing"
 	"time"
 
+	"github.com/btcsuite/btcd/chainhash/v2"
 	"github.com/btcsuite/btcd/wire/v2"
 	"pgregory.net/rapid"
 
@@ -209,11 +210,42 @@ func runCase(t *testing.T, c Case) kit.Verdict {
 						nodes := kit.Segment(int32(tipH), end)
 						muts := kit.HeaderMuts
 						mk := (k + a.Param) % len(nodes)
-						p.SendHeaders(w.Batch(nodes, mk, muts[(k+a.Param)%len(muts)]))
-						if mk >= 1 && k%2 == 0 {
+						// The valid prefix of the batch (nodes before mk) is
+						// accepted by the client. It must not reveal a valid
+						// chain that beats the honest one - blocks the honest
+						// side has not produced yet, or a stale branch with at
+						// least as much work - or "the honest peers serve the
+						// most-work valid chain" would no longer be true.
+						ht := s.Peers[0].View()
+						lim := len(nodes)
+						for lim > 0 && !ht.OnPath(nodes[lim-1]) && nodes[lim-1].Work.Cmp(ht.Work) >= 0 {
+							lim--
+						}
+						if mk > lim {
+							mk = lim
+						}
+						batch := w.Batch(nodes, mk, muts[(k+a.Param)%len(muts)])
+						// A mutation can be ineffective in this world (e.g.
+						// another acceptable version, a timestamp that is
+						// still above the median): the "bad" header would
+						// then be a valid block nobody else knows. Only
+						// batches the reference validator rejects at mk are
+						// sent.
+						var ctx []*wire.BlockHeader
+						for _, pn := range n.Path() {
+							h := pn.Header
+							ctx = append(ctx, &h)
+						}
+						ctx = append(ctx, batch[:mk+1]...)
+						nowS := netsim.Now()
+						if w.Rules.CheckChain(ctx, int32(tipH)+1+int32(mk), func(chainhash.Hash) int64 { return nowS }) == "" {
+							continue
+						}
+						p.SendHeaders(batch)
+						if mk >= 1 && mk < lim && k%2 == 0 {
 							// chase: the honest continuation right
 							// behind the batch's valid prefix
-							p.SendHeaders(w.Batch(nodes[mk:], -1, ""))
+							p.SendHeaders(w.Batch(nodes[mk:lim], -1, ""))
 						}
 						hmu.Lock()
 						harmful = true
